@@ -1280,7 +1280,17 @@ func ruleTrimFast(p *Prog, r *Report) {
 					return false
 				}
 				sc := call.Common().StaticCallee()
-				return sc != nil && trims[sc] && instrBlockAfter(c, in)
+				if sc == nil || !trims[sc] {
+					return false
+				}
+				// the trim is applied to the line this constructor call built (a call that merely precedes or
+				// follows, on another value, does not count)
+				for _, a := range call.Common().Args {
+					if partOf(a, c) {
+						return true
+					}
+				}
+				return false
 			}
 			cut := func(from, to *ssa.BasicBlock) bool {
 				iff := ifOf(from)
@@ -1312,6 +1322,35 @@ func ruleTrimFast(p *Prog, r *Report) {
 }
 
 // instrBlockAfter: b is not before a in the same block (b in another block, or later in a's block).
+// partOf: v is root, a slice of it, or an element / field loaded from it (lines, lines[0], lines[i].f).
+func partOf(v ssa.Value, root ssa.Value) bool {
+	for i := 0; i < 8; i++ {
+		if v == root {
+			return true
+		}
+		switch x := v.(type) {
+		case *ssa.UnOp:
+			if x.Op != token.MUL {
+				return false
+			}
+			v = x.X
+		case *ssa.IndexAddr:
+			v = x.X
+		case *ssa.FieldAddr:
+			v = x.X
+		case *ssa.Slice:
+			v = x.X
+		case *ssa.Index:
+			v = x.X
+		case *ssa.Field:
+			v = x.X
+		default:
+			return false
+		}
+	}
+	return false
+}
+
 func instrBlockAfter(a, b ssa.Instruction) bool {
 	if a.Block() != b.Block() {
 		return true
